@@ -4,6 +4,7 @@ package main
 
 import (
 	"fmt"
+	"go/constant"
 	"go/token"
 	"go/types"
 
@@ -524,4 +525,57 @@ func readOnlyLocalAddr(addr ssa.Value) bool {
 		return true
 	}
 	return okUse(al) && stores == 1
+}
+
+// ---- path-sensitive reachability over constant phis --------------------------------------------------------------
+
+// reachConstPhi explores from block `start` (entered from predecessor `from`, may be nil) and reports whether an
+// instruction satisfying site is reachable, pruning the infeasible successor of an If whose condition is a phi of boolean
+// constants defined in the If's own block, given the predecessor through which the block was entered. cut removes edges.
+func reachConstPhi(fn *ssa.Function, start, from *ssa.BasicBlock, site func(ssa.Instruction) bool, cut func(from, to *ssa.BasicBlock) bool) bool {
+	type st struct{ b, pred *ssa.BasicBlock }
+	seen := map[st]bool{}
+	stack := []st{{start, from}}
+	for len(stack) > 0 {
+		s := stack[len(stack)-1]
+		stack = stack[:len(stack)-1]
+		if seen[s] {
+			continue
+		}
+		seen[s] = true
+		for _, in := range s.b.Instrs {
+			if site(in) {
+				return true
+			}
+		}
+		succs := s.b.Succs
+		if iff := ifOf(s.b); iff != nil && s.pred != nil && len(succs) == 2 {
+			cond := iff.Cond
+			neg := false
+			if u, ok := cond.(*ssa.UnOp); ok && u.Op == token.NOT {
+				cond, neg = u.X, true
+			}
+			if ph, ok := cond.(*ssa.Phi); ok && ph.Block() == s.b {
+				for i, p := range s.b.Preds {
+					if p == s.pred {
+						if c, ok := ph.Edges[i].(*ssa.Const); ok && c.Value != nil && c.Value.Kind() == constant.Bool {
+							v := constant.BoolVal(c.Value) != neg
+							if v {
+								succs = succs[:1]
+							} else {
+								succs = succs[1:]
+							}
+						}
+					}
+				}
+			}
+		}
+		for _, n := range succs {
+			if cut != nil && cut(s.b, n) {
+				continue
+			}
+			stack = append(stack, st{n, s.b})
+		}
+	}
+	return false
 }
